@@ -470,6 +470,8 @@ typedef struct {
 	const char *name;			/* configuration name, goes into replay files */
 	void (*save)(void *dst);		/* optional: gather the live state into `size` bytes */
 	void (*load)(const void *src);		/* optional: scatter it back */
+	int lib_unhashed;			/* the library image is saved and restored with every state but left out of the hash (canon() covers
+						 * what matters of it in a canonical form) */
 	void (*on_new)(int depth);		/* optional: called on every newly found state (live), e.g. a frontier probe;
 						 * must leave the live state as it found it */
 	/* results */
@@ -523,7 +525,7 @@ static void vx_bfs_run(vx_bfs *b)
 	vx_bfs_cur = b;
 	vx_store_init(&b->st, tot);
 	vx_set_init(&b->seen, 16);
-	vx_h_init(&h); b->canon(&h); vx_lib_hash(&h); vx_set_add(&b->seen, vx_h_done(&h));
+	vx_h_init(&h); b->canon(&h); if (!b->lib_unhashed) vx_lib_hash(&h); vx_set_add(&b->seen, vx_h_done(&h));
 	if (b->save) b->save(save); else memcpy(save, b->live, b->size);
 	vx_lib_save(save + b->size);
 	vx_store_add(&b->st, save, VX_NOPARENT, 0, 0);
@@ -546,7 +548,7 @@ static void vx_bfs_run(vx_bfs *b)
 			b->cur_op = op;
 			b->transitions++;
 			if (b->apply(op)) continue;
-			vx_h_init(&h); b->canon(&h); vx_lib_hash(&h);
+			vx_h_init(&h); b->canon(&h); if (!b->lib_unhashed) vx_lib_hash(&h);
 			if (vx_set_add(&b->seen, vx_h_done(&h))) {
 				if (b->save) b->save(tmp); else memcpy(tmp, b->live, b->size);
 				vx_lib_save(tmp + b->size);
